@@ -1,6 +1,6 @@
 (* C13 — property theorems.  Only statements closed by `exact`, each followed by Print Assumptions. *)
 From OlaBase Require Import Bytes.
-From C13 Require Import Gen Model Chk Proofs ProofsHelpers.
+From C13 Require Import Gen Model AckTimer Chk Proofs ProofsHelpers ProofsAck ProofsFan.
 Local Open Scope N_scope.
 
 (* ---- layer 2: the response builders ---- *)
@@ -201,6 +201,120 @@ Proof.
   - intros hi lo E _ _. inversion E; subst. left. vm_compute. discriminate.
   - reflexivity.
 Qed.
+
+(* ---- round 2: helpers that had no theorem ---- *)
+Theorem c13_helpers_device_info :
+  forall q model cat ver fp cur cnt start subs sens mc,
+    (q_cc q = GET_COMMAND \/ q_cc q = SET_COMMAND \/ q_cc q = DISCOVER_COMMAND) ->
+    good_r q (get_device_info q model cat ver fp cur cnt start subs sens mc).
+Proof. exact (fun q model cat ver fp cur cnt start subs sens mc W =>
+                get_device_info_ok q model cat ver fp cur cnt start subs sens mc W). Qed.
+Print Assumptions c13_helpers_device_info.
+
+(* slot data: the active personality exists (SetActivePersonality validates it) and, for the two
+   table replies, the table fits one response (5 resp. 3 bytes per slot; there is no ACK_OVERFLOW) *)
+Theorem c13_helpers_slots :
+  forall q ps active mc sl,
+    (q_cc q = GET_COMMAND \/ q_cc q = SET_COMMAND \/ q_cc q = DISCOVER_COMMAND) ->
+    active_slots ps active = Some sl ->
+    (5 * len sl <= MAX_PDL -> good q tt (get_slot_info q ps active mc)) /\
+    (3 * len sl <= MAX_PDL -> good q tt (get_slot_defaults q ps active mc)) /\
+    good q tt (get_slot_description q ps active mc).
+Proof.
+  exact (fun q ps active mc sl W A =>
+    conj (fun L => get_slot_info_ok q ps active mc sl W A L)
+   (conj (fun L => get_slot_defaults_ok q ps active mc sl W A L)
+         (get_slot_description_ok q ps active mc sl W A))).
+Qed.
+Print Assumptions c13_helpers_slots.
+
+(* ---- round 2: AckTimerResponder, for EVERY history of (clock reading, request) pairs and every
+   label configuration.  After any history the next request is completed exactly once; broadcast and
+   vendorcast get no response; a unicast GET/SET addressed to the responder gets RDM_COMPLETED_OK with
+   source/destination swapped, the request's transaction number, a matching class (GET QUEUED_MESSAGE
+   may deliver a SET response), a legal type, <= 231 bytes; and a NACK leaves the readable
+   parameters (start address, identify, personality) unchanged.  No handler hypothesis is left. ---- *)
+Theorem c13_acktimer :
+  forall c uid h now q,
+    let st := snd (at_run c uid h at_init) in
+    let out := fst (at_send c uid now q st) in
+    let st' := snd (at_send c uid now q st) in
+    (exists s ro, out = [(s, ro)]) /\
+    (is_broadcast (q_dst q) = true -> exists s, out = [(s, None)]) /\
+    (is_broadcast (q_dst q) = false -> directed_to (q_dst q) uid = true ->
+     q_cc q = GET_COMMAND \/ q_cc q = SET_COMMAND ->
+     exists r, out = [(RDM_COMPLETED_OK, Some r)] /\ resp_ok q r /\
+               (r_type r = RDM_NACK_REASON -> at_params st' = at_params st)).
+Proof. exact acktimer_conforms. Qed.
+Print Assumptions c13_acktimer.
+
+(* a SET answered with ACK_TIMER, and the queued message collected 400 ms later by another controller *)
+Example c13_acktimer_example :
+  fst (at_run (mkCfg [] [] [] []) 5
+         [(0, mkReq 9 5 1 1 0 SET_COMMAND PID_IDENTIFY_DEVICE [1]);
+          (400000, mkReq 8 5 2 1 0 GET_COMMAND PID_QUEUED_MESSAGE [4])] at_init) =
+  [ [(RDM_COMPLETED_OK, Some (mkResp 5 9 1 RDM_ACK_TIMER 0 0 SET_COMMAND_RESPONSE PID_IDENTIFY_DEVICE [0; 5]))];
+    [(RDM_COMPLETED_OK, Some (mkResp 5 8 2 RDM_ACK 0 0 SET_COMMAND_RESPONSE PID_IDENTIFY_DEVICE []))] ].
+Proof. vm_compute. reflexivity. Qed.
+
+(* ---- round 2: which handler ran (used to connect replies and state changes) ---- *)
+Theorem c13_dispatch_state :
+  forall (State : Type) incl (t : table State) uid sd q st,
+    snd (dispatch State incl t uid sd q st) = st \/
+    exists e h, lookup State t (q_pid q) = Some e /\
+      ((q_cc q = GET_COMMAND /\ e_get e = Some h) \/ (q_cc q = SET_COMMAND /\ e_set e = Some h)) /\
+      snd (dispatch State incl t uid sd q st) = snd (h q st) /\
+      (is_broadcast (q_dst q) = false ->
+       fst (dispatch State incl t uid sd q st) = [(RDM_COMPLETED_OK, fst (h q st))]).
+Proof. exact dispatch_state. Qed.
+Print Assumptions c13_dispatch_state.
+
+(* ---- round 2: the fan-out and the known finding C13-fanout-mixed-nack ---- *)
+(* a SET fanned out to all sub-devices reports the FIRST sub-device's reply and leaves the state that
+   all sub-devices, each run once in map order, produce *)
+Theorem c13_fanout_state :
+  forall (State : Type) k (d : device State) rest q st,
+    (forall k' d', In (k', d') ((k, d) :: rest) -> forall q st, exists r, fst (d' q st) = [r]) ->
+    len ((k, d) :: rest) < 65536 ->
+    q_sub q = ALL_RDM_SUBDEVICES -> q_cc q <> GET_COMMAND ->
+    subdev_send State ((k, d) :: rest) q st =
+    FOk (fst (d q st)) (run_states State ((k, d) :: rest) q st).
+Proof. exact fan_out_state. Qed.
+Print Assumptions c13_fanout_state.
+
+(* full statement "a NACKed SET changes nothing" is false for the fan-out ... *)
+Theorem c13_fanout_mixed_refuted :
+  exists r st', subdev_send dim_state (dim2 5) mixed_q mixed_st = FOk [(RDM_COMPLETED_OK, Some r)] st' /\
+                r_type r = RDM_NACK_REASON /\ st' = ((2, 1), (1, 512)) /\ st' <> mixed_st.
+Proof. exact fanout_mixed_refuted. Qed.
+Print Assumptions c13_fanout_mixed_refuted.
+
+(* ... and holds when the verdict is not mixed: if every sub-device NACKs (each sub-device keeping its
+   own state on a NACK) the reported NACK comes with an unchanged state.  Hence the finding needs a
+   sub-device after the first one whose answer is not a NACK. *)
+Theorem c13_fanout_partial :
+  forall (State : Type) k (d : device State) rest q st,
+    (forall k' d', In (k', d') ((k, d) :: rest) -> forall q st, exists r, fst (d' q st) = [r]) ->
+    len ((k, d) :: rest) < 65536 ->
+    q_sub q = ALL_RDM_SUBDEVICES -> q_cc q <> GET_COMMAND ->
+    (forall k' d', In (k', d') ((k, d) :: rest) -> nack_keeps State d') ->
+    all_nack State ((k, d) :: rest) q st ->
+    subdev_send State ((k, d) :: rest) q st = FOk (fst (d q st)) st.
+Proof.
+  exact (fun State k d rest q st HO LT SUB CC NK AN =>
+           eq_trans (fan_out_state State k d rest q st HO LT SUB CC)
+                    (f_equal (FOk (fst (d q st))) (all_nack_state State ((k, d) :: rest) q st NK AN))).
+Qed.
+Print Assumptions c13_fanout_partial.
+
+(* the hypotheses hold for the modelled DimmerSubDevice pair *)
+Example c13_fanout_partial_hyps_satisfiable :
+  (forall k d, In (k, d) (dim2 5) -> forall q st, exists r, fst (d q st) = [r]) /\
+  (forall k d, In (k, d) (dim2 5) -> nack_keeps dim_state d).
+Proof. exact (dim2_hyps 5). Qed.
+
+Example c13_fanout_partial_guard_satisfiable : all_nack dim_state (dim2 5) mixed_q ((2, 1), (2, 2)).
+Proof. exact fanout_all_nack_example. Qed.
 
 (* the literal numbers of the property text *)
 Theorem c13_constants :
